@@ -91,6 +91,18 @@ void useDispatchers()
 		D d; d.dispatch(EventStruct{"k", 1});
 	}
 	{
+		// exclude-event form with a getEvent policy that maps the selector (must be used, not DefaultGetEvent)
+		using D = eventpp::EventDispatcher<int, void (const std::string &), PoliciesGetEventExcl>;
+		exerciseDispatcher<D>(4, [](const std::string &) {});
+		D d; d.dispatch(404, "not found"); d.dispatch(200, std::string("ok"));
+	}
+	{
+		// exclude-event form, by-value movable listener argument, policy taking it by value
+		using D = eventpp::EventDispatcher<int, void (std::string), PoliciesGetEventExclValue>;
+		exerciseDispatcher<D>(4, [](std::string) {});
+		D d; d.dispatch(404, std::string("payload")); std::string s("x"); d.dispatch(200, s);
+	}
+	{
 		using D = eventpp::EventDispatcher<int, void (int, const std::string &), PoliciesCanContinue>;
 		exerciseDispatcher<D>(1, [](int, const std::string &) {});
 		D d; d.dispatch(1, 1, "x");
